@@ -500,6 +500,8 @@ void Curve::parametric(ParametricVec2 curve_function, void* data, bool relative)
         u += du;
         du *= 2;
     }
+    // Smooth continuations and turns follow the direction in which this section ends
+    if (point_array.count >= 2) last_ctrl = point_array[point_array.count - 2];
 }
 
 uint64_t Curve::commands(const CurveInstruction* items, uint64_t count) {
